@@ -1049,6 +1049,65 @@ def handler_jobs():
             for allow in (True, False)]
 
 
+# ------------------------------------------------------------------ a SOCKS client that stops in the middle of its handshake
+def socks_partial_case(prefix_len, ending):
+    """an application connects to a dynamic (SOCKS) forward and sends only the first `prefix_len` bytes of a SOCKS5
+    request (nothing, the greeting, half of the request); then the listener is closed and/or the SSH connection
+    ends: the accepted socket is released like every other relayed socket"""
+    w = World('socks5')
+    loop = w.loop
+    viol = []
+    try:
+        w.setup()
+        a = End('A', [])
+        t = loop.create_task(loop.create_connection(lambda: a, w.target[0], w.target[1]))
+        loop.flush_all()
+        host = w.dest[0].encode()
+        full = bytes([5, 1, 0]) + bytes([5, 1, 0, 3, len(host)]) + host + struct.pack('>H', w.dest[1])
+        if prefix_len:
+            a.t.write(full[:prefix_len])
+            loop.flush_all()
+        if ending == 'listener-close+conn-close':
+            w.listener.close()
+            loop.flush_all()
+            w.pair.c.close()
+        elif ending == 'conn-close':
+            w.pair.c.close()
+        elif ending == 'server-close':
+            w.pair.s.close()
+        elif ending == 'abort':
+            w.pair.c.abort()
+        else:
+            loop.cut(w.pair.ct)
+        loop.flush_all()
+        relay = a.t.peer
+        if not (relay.closing or relay.lost or a.lost or a.eof):
+            viol.append(('relayed-socket-leaked', 'the SOCKS client that had sent %d bytes of its request is still connected after %s' % (prefix_len, ending)))
+        if w.pair.c._channels or w.pair.s._channels:
+            viol.append(('channel-registered-after-close', 'client=%r server=%r' % (list(w.pair.c._channels), list(w.pair.s._channels))))
+        if loop.unretrieved():
+            viol.append(('loop-exception', repr(loop.exc_log[0].get('exception') or loop.exc_log[0].get('message'))[:200]))
+    except Livelock as exc:
+        viol.append(('livelock', str(exc)))
+    finally:
+        w.close()
+    return viol
+
+
+def socks_partial_worker(job):
+    acc = core.Acc()
+    for case in job:
+        viol = socks_partial_case(*case)
+        acc.add(core.digest(('socks-partial',) + tuple(case)), transitions=3)
+        for k, d in viol:
+            acc.violation('forward:%s:socks-partial:%s' % (k, case[1]), '%s ; case=%r' % (d, case), {'kind': 'socks-partial', 'case': list(case)})
+    return acc
+
+
+def socks_partial_jobs():
+    return [[(n, e)] for n in (0, 1, 2, 3, 4, 7, 10) for e in ('listener-close+conn-close', 'conn-close', 'server-close', 'abort', 'cut')]
+
+
 def main(tier, seed):
     t0 = core.now()
     kinds = ['local', 'remote', 'local-path', 'remote-path', 'socks5', 'socks4', 'socks4a']
@@ -1083,6 +1142,7 @@ def main(tier, seed):
     acc.merge(core.pmap(multi_worker, multi_jobs()))
     acc.merge(core.pmap(slow_worker, slow_jobs(tier)))
     acc.merge(core.pmap(handler_worker, handler_jobs()))
+    acc.merge(core.pmap(socks_partial_worker, socks_partial_jobs()))
     rule = ('forwarding kinds {local, remote, local path, remote path, SOCKS5, SOCKS4, SOCKS4a} x 9 scripted '
             'conversations (duplex writes incl. 300 bytes, half-close in each order, close by either end, EOF before '
             'any data); at every point the explorer may deliver any pending pipe, run the next application action '
@@ -1112,6 +1172,8 @@ def replay(rep):
         acc = perm_worker([(c[0], c[1], c[2], tuple(c[3]))])
         v = acc.violations
         print(json.dumps(v, indent=1, default=repr))
+    elif r['kind'] == 'socks-partial':
+        acc = socks_partial_worker([tuple(r['case'])])
     elif r['kind'] == 'handler':
         acc = handler_worker([tuple(r['case'])])
     elif r['kind'] == 'slow':
